@@ -1,28 +1,128 @@
 #!/usr/bin/env python3
 """Entry point of every registered check.
 
-  python3 tools/check.py Cxx [--tier quick|thorough] [--replay <schedule.json>]
+  python3 tools/check.py Cxx [--tier quick|thorough] [--replay <schedule.json>] [--no-evidence]
 
 exit 0: the property held on everything explored (known findings are printed)
 exit 1: 'VIOLATION property=<id> replay=<path>' for a violation not listed in KNOWN_FINDINGS.txt
 exit 2: inconclusive (build failure, time-out, trace not accepted, model drift, vacuity) - never a violation
 """
-import argparse, json, os, shutil, sys, time, glob, collections
+import argparse, json, os, shutil, sys, time, glob, collections, re
 
 sys.path.insert(0, os.path.dirname(os.path.abspath(__file__)))
-import vlib
+import vlib, schedules
 from vlib import Inconclusive
 
-# ---- concurrency families: executor + ObsTrace ---------------------------------
+# ---- concurrency families: design model + executor + ObsTrace --------------------
 
-CONC = {
-    "C01": dict(families=["deploy"], invs=["C01_a", "C01_b", "C01_c"], mc=["MC_Deploy"]),
-    "C02": dict(families=["deploy"], invs=["C02"], mc=["MC_Deploy"]),
-    "C03": dict(families=["deploy"], invs=["C03_a", "C03_b", "C03_c"], mc=["MC_Deploy"]),
-    "C17": dict(families=["deploy"], invs=["C17_a", "C17_b", "C17_c"], mc=["MC_Deploy"]),
+# design-model configurations per family: cfgs per tier, witness goals (goal, cfg in which it is reachable),
+# regression variants (reverting a repair must break the design-level property again; the counterexample is
+# replayed into the code on every run) and no-exemption runs (the known findings must still be reachable).
+MODELS = {
+    "deploy": dict(module="MC_Deploy.tla",
+                   quick=["MC_Deploy_quick.cfg", "MC_DeployBad_quick.cfg"],
+                   thorough=["MC_Deploy_thorough.cfg", "MC_Deploy3_thorough.cfg", "MC_DeployBad_thorough.cfg"],
+                   sim_cfg="MC_Deploy_quick.cfg",
+                   witnesses=[(w, "MC_Deploy_quick.cfg") for w in
+                              ["W_ClaimWhileDraining", "W_CutAtDeadline", "W_ServedByRetired", "W_UpgradeClosed", "W_FailedDeploy"]],
+                   variants=[dict(name="pinned-F1", cfg="MC_Deploy_quick.cfg", constants={"SignalAfterNotify": "FALSE"},
+                                  invariants=["D_C02"])],
+                   no_exempt=[("D_C02", "MC_Deploy_quick.cfg"), ("D_C03_b", "MC_Deploy_quick.cfg")]),
+    "pause": dict(module="MC_Pause.tla",
+                  quick=["MC_Pause%s.cfg" % x for x in "ABCDEF"],
+                  thorough=["MC_Pause%s.cfg" % x for x in "ABCDEF"],
+                  thorough_constants={"Kinds": '{"plain", "forever", "upgrade"}'},
+                  sim_cfg="MC_PauseB.cfg",
+                  witnesses=[("W_HeldThenServed", "MC_PauseA.cfg"), ("W_HeldThenStopped", "MC_PauseB.cfg"),
+                             ("W_GateClaim", "MC_PauseA.cfg"), ("W_CutAtDeadline", "MC_PauseA.cfg")],
+                  variants=[],
+                  no_exempt=[("D_C07_f", "MC_PauseA.cfg"), ("D_C07_b", "MC_PauseD.cfg"), ("D_C03_p", "MC_PauseC.cfg")]),
 }
 
-SIZES = {"quick": 240, "thorough": 4000}
+CONC = {
+    "C01": dict(families=["deploy", "rollout"], invs=["C01_a", "C01_b", "C01_c"], dinvs=["D_C01_a", "D_C01_b", "D_C01_c"]),
+    "C02": dict(families=["deploy"], invs=["C02"], dinvs=["D_C02"]),
+    "C03": dict(families=["deploy", "pause", "rollout"], invs=["C03_a", "C03_b", "C03_c"], dinvs=["D_C03_a", "D_C03_b", "D_C03_p"]),
+    "C07": dict(families=["pause"], invs=["C07_a", "C07_b", "C07_c", "C07_d", "C07_e", "C07_f"], dinvs=["D_C07_a", "D_C07_b", "D_C07_f"]),
+    "C08": dict(families=["pause"], invs=["C08", "C08_fwd"], dinvs=["D_C08", "D_C07_a"]),
+    "C17": dict(families=["deploy", "pause", "rollout"], invs=["C17_a", "C17_b", "C17_c"], dinvs=["D_C17_c"]),
+}
+
+SIZES = {"quick": {"deploy": 160, "pause": 160, "rollout": 128}, "thorough": {"deploy": 4000, "pause": 4000, "rollout": 3000}}
+SIMS = {"quick": 30, "thorough": 500}
+MC_TIMEOUT = {"quick": 240, "thorough": 1500}
+
+
+def design_runs(family, tier, seed):
+    """Start every TLC run on the design model for this family; returns a list of job dicts."""
+    mdl = MODELS.get(family)
+    if not mdl:
+        return []
+    jobs = []
+    wd = vlib.spec_copy(family)
+    cfgs = [c for c in mdl[tier] if os.path.exists(os.path.join(wd, c))] or mdl["quick"]
+    extra_const = mdl.get("thorough_constants") if tier == "thorough" else None
+    for cfg in cfgs:
+        name = cfg
+        if extra_const:
+            name = vlib.cfg_with(wd, cfg, "T_" + cfg, constants=extra_const)
+        p = vlib.start_tlc(wd, mdl["module"], name, workers=max(2, vlib.NCPU // 2 // len(cfgs)), timeout=MC_TIMEOUT[tier])
+        jobs.append(dict(kind="mc", cfg=cfg, proc=p, wd=wd))
+    for w, wcfg in mdl["witnesses"]:
+        wd2 = vlib.spec_copy(family + w)
+        name = vlib.cfg_with(wd2, wcfg, "W_%s.cfg" % w, invariants=[w], constants={"AllowBad": "TRUE"} if family == "deploy" else None)
+        jobs.append(dict(kind="witness", goal=w, cfg=wcfg, proc=vlib.start_tlc(wd2, mdl["module"], name, workers=2, timeout=200), wd=wd2))
+    for var in mdl["variants"]:
+        wd2 = vlib.spec_copy(family + var["name"])
+        name = vlib.cfg_with(wd2, var["cfg"], "V_%s.cfg" % var["name"], invariants=var["invariants"], constants=var["constants"])
+        jobs.append(dict(kind="variant", goal=var["name"], cfg=var["cfg"], proc=vlib.start_tlc(wd2, mdl["module"], name, workers=2, timeout=200), wd=wd2))
+    for inv, ncfg in mdl.get("no_exempt", []):
+        wd2 = vlib.spec_copy(family + "ne" + inv)
+        name = vlib.cfg_with(wd2, ncfg, "NE_%s.cfg" % inv, invariants=[inv], constants={"Exempt": "FALSE"})
+        jobs.append(dict(kind="noexempt", goal=inv, cfg=ncfg, proc=vlib.start_tlc(wd2, mdl["module"], name, workers=2, timeout=200), wd=wd2))
+    # random behaviours of the design model
+    wd3 = vlib.spec_copy(family + "sim")
+    simp = os.path.join(wd3, "sim")
+    p = vlib.start_tlc(wd3, mdl["module"], mdl["sim_cfg"], workers=1, timeout=200,
+                       extra=["-simulate", "file=%s,num=%d" % (simp, SIMS[tier]), "-depth", "70", "-seed", str(seed)])
+    jobs.append(dict(kind="sim", cfg=mdl["sim_cfg"], proc=p, wd=wd3, prefix=simp))
+    return jobs
+
+
+def collect_design(jobs, family):
+    """Wait for the TLC jobs; returns (model-check summary, guided plans, notes)."""
+    mc, plans, notes = [], [], []
+    for j in jobs:
+        rc, out = vlib.finish_tlc(j["proc"])
+        verdict = vlib.tlc_verdict(rc, out)
+        desc = schedules.load_desc(os.path.join(vlib.SPEC, j["cfg"]))
+        if j["kind"] == "mc":
+            st, gen = vlib.tlc_stats(out)
+            mc.append(dict(cfg=j["cfg"], verdict=verdict, states=st, transitions=gen))
+            if verdict.startswith("violated") or verdict == "deadlock":
+                labels = schedules.parse_labels(out)
+                plans.append(schedules.plan_from_labels(labels, desc, note="design-model counterexample %s %s" % (j["cfg"], verdict)))
+                notes.append(("mc-counterexample", j["cfg"], verdict))
+            elif verdict != "ok":
+                raise Inconclusive("TLC on %s: %s\n%s" % (j["cfg"], verdict, out[-1500:]))
+        elif j["kind"] in ("witness", "variant", "noexempt"):
+            if verdict.startswith("violated"):
+                labels = schedules.parse_labels(out)
+                plans.append(schedules.plan_from_labels(labels, desc, note="%s %s" % (j["kind"], j["goal"])))
+            elif verdict == "ok":
+                notes.append((j["kind"] + "-unreachable", j["goal"], verdict))
+            else:
+                raise Inconclusive("TLC %s %s: %s\n%s" % (j["kind"], j["goal"], verdict, out[-1500:]))
+        elif j["kind"] == "sim":
+            files = sorted(glob.glob(j["prefix"] + "_*"))
+            if not files:
+                raise Inconclusive("TLC simulate produced no behaviours:\n" + out[-1500:])
+            for f in files:
+                labels = schedules.parse_labels(open(f).read())
+                plans.append(schedules.plan_from_labels(labels, desc, note="simulate " + os.path.basename(f)))
+    for j in jobs:
+        shutil.rmtree(j["wd"], ignore_errors=True)
+    return mc, plans, notes
 
 
 def run_conc(prop, tier, seed, replay=None):
@@ -30,19 +130,40 @@ def run_conc(prop, tier, seed, replay=None):
     spec = CONC[prop]
     known = vlib.load_known()
     binary = vlib.build_harness()
-    traces, plan_dirs, n_scn, events = [], {}, 0, collections.Counter()
+    n_scn, events = 0, collections.Counter()
+    mc, notes, guided_n = [], [], 0
     if replay:
         pdir = os.path.join(vlib.scratch(), "replay-plans")
         os.makedirs(pdir, exist_ok=True)
         obj = json.load(open(replay))
         plan = obj["plan"]
-        plan["sched"] = "replay"
+        if plan.get("sched") not in ("guided",):
+            plan["sched"] = "replay"
         json.dump(plan, open(os.path.join(pdir, "0.json"), "w"))
         outs = vlib.run_executor(binary, "plans", 1, seed, tier, plans_dir=pdir)
     else:
+        jobs = []
+        for fam in spec["families"]:
+            jobs += [(fam, design_runs(fam, tier, seed))]
         outs = []
         for fam in spec["families"]:
-            outs += vlib.run_executor(binary, fam, SIZES[tier], seed, tier)
+            outs += vlib.run_executor(binary, fam, SIZES[tier][fam], seed, tier, procs=vlib.NCPU // 2)
+        for fam, js in jobs:
+            m, plans, nts = collect_design(js, fam)
+            mc += m
+            notes += nts
+            # guided plans: split over a few processes
+            per = max(1, (len(plans) + 7) // 8)
+            for i in range(0, len(plans), per):
+                pdir = os.path.join(vlib.scratch(), "guided-%s-%d" % (fam, i))
+                os.makedirs(pdir, exist_ok=True)
+                for k, pl in enumerate(plans[i:i + per]):
+                    json.dump(pl, open(os.path.join(pdir, "%05d.json" % k), "w"))
+                outs += vlib.run_executor(binary, "plans", len(plans[i:i + per]), seed, tier, plans_dir=pdir,
+                                          extra_env={"VERIF_FIRST": str(100000 + i)})
+            guided_n += len(plans)
+    traces = []
+    guided_stats = collections.Counter()
     for out in outs:
         tf = os.path.join(out, "obs.ndjson")
         vlib.filter_trace(os.path.join(out, "trace.ndjson"), tf)
@@ -50,6 +171,8 @@ def run_conc(prop, tier, seed, replay=None):
         s = json.load(open(os.path.join(out, "summary.json")))
         n_scn += s["scenarios"]
         events.update(s["events"])
+        guided_stats["hits"] += s.get("hits", 0)
+        guided_stats["misses"] += s.get("misses", 0)
     res = vlib.validate_traces(traces)
     if replay:
         os.makedirs(os.path.join(vlib.VERIF, "out", prop), exist_ok=True)
@@ -84,6 +207,8 @@ def run_conc(prop, tier, seed, replay=None):
     if len(unlisted) > 20:
         print("  ... and %d more violation instance(s)" % (len(unlisted) - 20))
 
+    # a design-model counterexample that the code did not reproduce is model drift, not a violation
+    drift = [n for n in notes if n[0] == "mc-counterexample"]
     nontrivial = sum(res["coverage"].get(i, 0) for i in spec["invs"])
     samples = []
     for out in outs[:1]:
@@ -92,17 +217,27 @@ def run_conc(prop, tier, seed, replay=None):
                 if j >= 12:
                     break
                 samples.append(json.loads(line))
+    states = sum(m["states"] for m in mc)
+    trans = sum(m["transitions"] for m in mc)
     cov = {
+        "states": max(1, states),
+        "transitions": max(1, trans),
         "traces_validated_against_impl": n_scn,
         "evaluations": n_scn,
         "distinct_nontrivial": nontrivial,
-        "rule": "one evaluation = one scenario executed on the real proxy under the controller and validated by TLC against "
-                "spec/ObsTrace.tla; distinct_nontrivial = sum over this property's invariants of the number of distinct "
-                "scenarios in which the invariant's antecedent was satisfied at least once (counted by the trace spec itself)",
+        "rule": "states/transitions: TLC's exhaustive check of the design model spec/Proxy.tla against its D_* invariants on the "
+                "bounded configurations listed under design_model. One evaluation = one scenario executed on the real proxy under "
+                "the controller (random/PCT/freeze schedules, and schedules derived from TLC behaviours of the design model: "
+                "witness goals, pinned-variant counterexamples, random simulation) and validated by TLC against spec/ObsTrace.tla; "
+                "distinct_nontrivial = sum over this property's invariants of the number of distinct scenarios in which the "
+                "invariant's antecedent was satisfied at least once (counted by the trace spec itself)",
+        "design_model": mc,
+        "design_invariants": spec.get("dinvs", []),
+        "design_notes": [list(n) for n in notes],
+        "guided_schedules": guided_n,
+        "guided_decisions": dict(guided_stats),
         "antecedent_hits": {i: res["coverage"].get(i, 0) for i in sorted(res["coverage"])},
         "trace_events_validated": res["lines"],
-        "states": max(1, res["states"]),
-        "transitions": max(1, res["lines"]),
         "events_recorded": dict(events),
         "samples": samples,
         "known_findings_printed": list(listed.keys()),
@@ -111,9 +246,165 @@ def run_conc(prop, tier, seed, replay=None):
         "exhaustive": False,
     }
     vlib.write_evidence(prop, tier, seed, "model_checking", cov, time.time() - t0, len(unlisted),
-                        ["TLC/SANY", "testing/synctest virtual clock", "net.Pipe in-memory network", "harness recorder"])
+                        ["TLC/SANY", "testing/synctest virtual clock", "net.Pipe in-memory network", "harness recorder and fake targets",
+                         "bounded configurations of the design model (constants in spec/MC_*.cfg)"])
+    if rc == 0 and drift:
+        raise Inconclusive("model drift: the design model violates %s but the replayed schedule did not violate the property on the code" % drift)
+    unreachable = [n for n in notes if n[0].endswith("-unreachable")]
+    if rc == 0 and unreachable:
+        raise Inconclusive("vacuity: goals not reachable in the design model: %s" % unreachable)
     if nontrivial == 0 and not replay:
         raise Inconclusive("vacuous run: no scenario exercised the antecedent of any invariant of %s" % prop)
+    return rc
+
+
+# ---- sequential families: Routing.tla / MC_Routing.tla / RoutingTrace.tla ------------------
+
+SEQ = {
+    "C04": dict(invs=["C04"], cov=["C04", "C04_404"], dinvs=["Inv_RouteWellDefined", "Inv_RouteSound"]),
+    "C05": dict(invs=["C05_b", "C05_a"], cov=["C05_b"], dinvs=["Inv_Ownership"]),
+    "C16": dict(invs=["C16", "C16_cert", "C16_acme"], cov=["C16", "C16_cert"], dinvs=["Inv_Cert", "Inv_Decision"]),
+}
+SEQ_SIMS = {"quick": (60, 7), "thorough": (1500, 9)}   # (behaviours, depth)
+
+
+def run_seq(prop, tier, seed, replay=None):
+    import random, routing
+    t0 = time.time()
+    spec = SEQ[prop]
+    known = vlib.load_known()
+    binary = vlib.build_harness()
+    rng = random.Random(seed)
+    mc = []
+    plans = []
+    if replay:
+        plans = [json.load(open(replay))["plan"]]
+    else:
+        wd = vlib.spec_copy("routing")
+        cfg = "MC_Routing_%s.cfg" % tier
+        pm = vlib.start_tlc(wd, "MC_Routing.tla", cfg, workers=vlib.NCPU // 2, timeout=MC_TIMEOUT[tier])
+        wd2 = vlib.spec_copy("routing-sim")
+        n, depth = SEQ_SIMS[tier]
+        ps = vlib.start_tlc(wd2, "MC_Routing.tla", "MC_Routing_thorough.cfg", workers=1, timeout=300,
+                            extra=["-simulate", "file=%s,num=%d" % (os.path.join(wd2, "sim"), n), "-depth", str(depth), "-seed", str(seed)])
+        rc, out = vlib.finish_tlc(ps)
+        files = sorted(glob.glob(os.path.join(wd2, "sim_*")))
+        if not files:
+            raise Inconclusive("TLC simulate produced no behaviours:\n" + out[-1500:])
+        for f in files:
+            steps = routing.steps_from_text(open(f).read())
+            if not steps:
+                continue
+            plans.append(routing.plan(routing.with_restarts(steps, rng, 1), note="simulate " + os.path.basename(f)))
+            if rng.random() < 0.3:
+                for perm in routing.permutations_same_table(steps, rng, 1):
+                    plans.append(routing.plan(routing.with_restarts(perm, rng, 1), note="permutation of " + os.path.basename(f)))
+        rc, out = vlib.finish_tlc(pm)
+        verdict = vlib.tlc_verdict(rc, out)
+        st, gen = vlib.tlc_stats(out)
+        mc.append(dict(cfg=cfg, verdict=verdict, states=st, transitions=gen))
+        if verdict == "timeout" and tier == "thorough":
+            pass   # recorded as not exhaustive
+        elif verdict != "ok":
+            raise Inconclusive("TLC on %s: %s\n%s" % (cfg, verdict, out[-2000:]))
+        shutil.rmtree(wd, ignore_errors=True)
+        shutil.rmtree(wd2, ignore_errors=True)
+    outs = []
+    procs = min(vlib.NCPU, max(1, len(plans) // 4))
+    per = (len(plans) + procs - 1) // procs
+    for i in range(0, len(plans), per):
+        pdir = os.path.join(vlib.scratch(), "rplans-%d" % i)
+        os.makedirs(pdir, exist_ok=True)
+        for k, pl in enumerate(plans[i:i + per]):
+            json.dump(pl, open(os.path.join(pdir, "%05d.json" % k), "w"))
+        outs.append((pdir, i))
+    odirs = []
+    # run the groups in parallel
+    import subprocess
+    running = []
+    for pdir, i in outs:
+        out = os.path.join(vlib.scratch(), "rexec-%d" % i)
+        os.makedirs(out, exist_ok=True)
+        env = dict(vlib.GOENV, VERIF_OUT=out, VERIF_PLANS=pdir, VERIF_FIRST=str(i))
+        p = subprocess.Popen([binary, "-test.run", "^TestRouting$", "-test.timeout", "30m"], cwd=out, env=env,
+                             stdout=subprocess.PIPE, stderr=subprocess.STDOUT, text=True)
+        running.append((p, out, pdir))
+    for p, out, pdir in running:
+        o, _ = p.communicate()
+        if p.returncode != 0:
+            pp = vlib.classify_crash(out, o)
+            if pp:
+                cur = os.path.join(out, "current")
+                if os.path.exists(cur):
+                    pp.plan = json.load(open(os.path.join(pdir, open(cur).read().strip())))
+                raise pp
+            raise Inconclusive("executor failed (exit %d):\n%s" % (p.returncode, o[-3000:]))
+        odirs.append((out, pdir))
+    traces = []
+    n_scn, events = 0, collections.Counter()
+    for out, pdir in odirs:
+        traces.append(os.path.join(out, "trace.ndjson"))
+        s = json.load(open(os.path.join(out, "summary.json")))
+        n_scn += s["scenarios"]
+        events.update(s["events"])
+    res = vlib.validate_traces(traces, module="RoutingTrace.tla", cfg="RoutingTrace.cfg")
+    harness = [v for v in res["violations"] if v["inv"] == "HARNESS"]
+    if harness:
+        raise Inconclusive("harness-level problem in trace: %r" % harness[:3])
+    mine = [v for v in res["violations"] if v["inv"] in spec["invs"] or (v["inv"] == "C11_restore" and prop in ("C04", "C16"))]
+    others = collections.Counter(v["inv"] for v in res["violations"] if v not in mine)
+    listed, unlisted = collections.OrderedDict(), []
+    for v in mine:
+        k = vlib.match_known(prop, v, known)
+        if k:
+            listed.setdefault(k["id"], [k, 0])[1] += 1
+        else:
+            unlisted.append(v)
+    for kid, (k, cnt) in listed.items():
+        print("KNOWN-FINDING: %s (%d instance(s) this run)" % (k["text"].split(" ", 1)[1], cnt))
+    rc = 0
+    if not replay:
+        shutil.rmtree(os.path.join(vlib.VERIF, "out", prop), ignore_errors=True)
+    seen = set()
+    for v in unlisted:
+        key = (v["trace"], v["scn"])
+        if key in seen or len(seen) >= 10:
+            continue
+        seen.add(key)
+        out = os.path.dirname(v["trace"])
+        pdir = [p for o, p in odirs if o == out][0]
+        base = int(os.path.basename(out).split("-")[1])
+        pf = os.path.join(pdir, "%05d.json" % (v["scn"] - base))
+        plan = json.load(open(pf)) if os.path.exists(pf) else None
+        path = vlib.save_replay(prop, len(seen) - 1, {"property": prop, "violation": {k: v[k] for k in v if k != "trace"}, "plan": plan})
+        print("VIOLATION property=%s replay=%s" % (prop, path))
+        print("  %s subject=%s scenario=%s: %s" % (v["inv"], v["subj"], v["scn"], v["detail"]))
+        rc = 1
+    nontrivial = sum(res["coverage"].get(i, 0) for i in spec["cov"])
+    samples = []
+    if traces:
+        with open(traces[0]) as f:
+            for j, line in enumerate(f):
+                if j >= 8:
+                    break
+                samples.append(json.loads(line))
+    cov = {
+        "states": max(1, sum(m["states"] for m in mc)), "transitions": max(1, sum(m["transitions"] for m in mc)),
+        "traces_validated_against_impl": n_scn, "evaluations": res["lines"], "distinct_nontrivial": nontrivial,
+        "rule": "states = reachable routing tables of spec/MC_Routing.tla (universe in the cfg), each checked by TLC against "
+                "the design invariants; one trace = one command history generated by TLC (random walks of that state graph, with a "
+                "restart inserted and some with the deploys permuted) replayed into a real router; after every command the whole "
+                "request matrix (hosts x paths x schemes, SNI names) is sent through the full handler chain and each observed line is "
+                "compared by TLC with Decision/Cert/DeployResult of spec/Routing.tla on the table the specification computes; "
+                "distinct_nontrivial = observed lines that exercised this property's operators (counted by the trace spec)",
+        "design_model": mc, "design_invariants": spec["dinvs"], "antecedent_hits": res["coverage"],
+        "events_recorded": dict(events), "samples": samples, "known_findings_printed": list(listed.keys()),
+        "other_invariants_violated_this_run": dict(others), "exhaustive": all(m["verdict"] == "ok" for m in mc) and bool(mc),
+    }
+    vlib.write_evidence(prop, tier, seed, "model_checking", cov, time.time() - t0, len(unlisted),
+                        ["TLC/SANY", "harness lexer for hosts and paths (well-formed inputs only)", "fake targets identify the serving service"])
+    if nontrivial == 0 and not replay:
+        raise Inconclusive("vacuous run for %s" % prop)
     return rc
 
 
@@ -130,6 +421,8 @@ def main():
     try:
         if a.prop in CONC:
             rc = run_conc(a.prop, a.tier, seed, a.replay)
+        elif a.prop in SEQ:
+            rc = run_seq(a.prop, a.tier, seed, a.replay)
         else:
             print("unknown property", a.prop)
             rc = 2
